@@ -54,21 +54,11 @@ claim("C02",
       "separately at reduced alphabets in the thorough tier); the inflate_fast loop (checked stub: reaching it fails the harness); SIMD "
       "intrinsic paths (the generic chunked code at N = 32 is what is covered).")
 claim("C03",
-      "Bounded: the validators are decided against predicates transcribed from RFC 1950/1951/1952: zlib header (CM, CINFO vs configured "
-      "window, FCHECK, FDICT), gzip method/reserved flags, BFINAL/BTYPE, LEN/NLEN, HLIT/HDIST limits, code-length order, every fixed "
-      "literal/length/distance code incl. the invalid codes 286/287/30/31, distance-too-far verdict (rejected iff distance > output so far + "
-      "window), trailer verdicts; LENFIX/DISTFIX equal the RFC table for all 512+32 indices.",
-      "Outside: whole-stream acceptance (only per-validator exactness), dynamic Huffman tables at full alphabet size, 'bytes emitted before a "
-      "rejection match reference zlib' (needs the C reference).")
+      'Bounded: the validators are decided against predicates transcribed from RFC 1950/1951/1952: zlib header (CM, CINFO vs configured window, FCHECK, FDICT), gzip method/reserved flags, BFINAL/BTYPE, LEN/NLEN, HLIT/HDIST limits, code-length order, the run-length items 16/17/18 of the code-length sequence (every repeat count short of, exactly at and past HLIT+HDIST; thorough tier), every fixed literal/length/distance code incl. the invalid codes 286/287/30/31, the distance-too-far verdict in both copies of the match code (rejected iff distance > output so far + window, every (length, offset, ring state)), trailer verdicts; LENFIX/DISTFIX equal the RFC table for all 512+32 indices; inflate_table at reduced alphabets (thorough).',
+      "Outside: whole-stream acceptance (only per-validator exactness), dynamic Huffman tables at full alphabet size, 'bytes emitted before a rejection match reference zlib' (needs the C reference).")
 claim("C04",
-      "Bounded: split invariance of the bit reader (same bits whether delivered in one slice or cut at any point); every decoder step "
-      "harness starts from an arbitrary suspended state (arbitrary bits in the register, arbitrary progress counters) and asserts that "
-      "suspension consumes exactly the available input and keeps the progress needed to resume (CopyBlock, Extra/Name/Comment, LenLens, "
-      "LenExt/Dist/DistExt, Match partial copies); the result of a step is asserted as a function of the bits alone, independent of how "
-      "they arrived; flush modes only decide where a call returns (Type/TypeDo/Len_), not the state reached; inflate() reports BufError "
-      "exactly when nothing moved or Finish could not complete.",
-      "Outside: schedules of more than one suspension per harness, cuts inside dynamic-table construction; equality of two whole runs is "
-      "argued by induction over steps, not decided by the solver.")
+      'Bounded: split invariance of the bit reader (same bits whether delivered in one slice or cut at any point); every decoder step harness starts from an arbitrary suspended state (arbitrary bits in the register, arbitrary progress counters) and asserts that suspension consumes exactly the available input and keeps the progress needed to resume (CopyBlock, Extra/Name/Comment, LenLens, CodeLens items with their extra bits missing, LenExt/Dist/DistExt, Match partial copies in both copies of the code); the result of a step is asserted as a function of the bits alone, independent of how they arrived; flush modes only decide where a call returns (Type/TypeDo/Len_/after a stored header under Z_TREES), and the state saved there is the one the next call needs; inflate() reports BufError exactly when nothing moved or Finish could not complete.',
+      'Outside: schedules of more than one suspension per harness, cuts inside dynamic-table construction; equality of two whole runs is argued by induction over steps, not decided by the solver.')
 claim("C06",
       "Bounded: deflate()'s status machine with the compress function replaced by a contract stub: every level x strategy x flush, documented "
       "statuses only, duplicate-flush rule, Finish under starved output (1..=3 bytes per call) reaches StreamEnd in at most 11 calls and "
@@ -85,14 +75,8 @@ claim("C07",
       "Outside: levels >= 2, Z_FIXED / Z_HUFFMAN_ONLY worst cases, long inputs (the per-block overhead argument needs whole-block runs), "
       "gzip headers and dictionaries beyond the wrapper-length arithmetic.")
 claim("C08",
-      "Bounded: from the trailer modes with an arbitrary running checksum, arbitrary output bytes of the current call and arbitrary trailer "
-      "bytes, StreamEnd is returned only if checking is disabled (validate(false)) or the trailer equals the checksum of the output folded "
-      "onto the running value (Adler-32 big endian with the real adler32; CRC little endian + ISIZE = total mod 2^32); the header CRC verdict "
-      "compares the low 16 bits of the running header CRC, which accumulates exactly the header bytes consumed, in order; inflate()'s epilogue "
-      "folds every produced byte exactly once (fused window copy, all size classes of Window::extend).",
-      "In the gzip/CRC harnesses the braid kernel is replaced by a byte-wise fold model (which bytes, from which start, in which order is the "
-      "subject); that the real crc32/adler32 equal their definitions is C09. Outside: per-call outputs >= 32 KiB at the production window "
-      "size (the len >= wsize branch is covered at W = 4/8: the code is parametric in the window length).")
+      "Bounded: from the trailer modes with an arbitrary running checksum, arbitrary output bytes of the current call and arbitrary trailer bytes, StreamEnd is returned only if checking is disabled (validate(false)) or the trailer equals the checksum of the output folded onto the running value (Adler-32 big endian with the real adler32; CRC little endian + ISIZE = total mod 2^32); the header CRC verdict compares the low 16 bits of the running header CRC, which accumulates exactly the header bytes consumed, in order; inflate()'s epilogue folds every produced byte exactly once; Window::extend folds both kinds of check value over every byte exactly once and in stream order in all its size classes (shorter than, equal to, longer than the window; wrap).",
+      'In the gzip/CRC and the window harnesses the checksum kernels are replaced by an order-sensitive byte-wise fold model (which bytes, from which start, in which order is the subject); that the real crc32/adler32 equal their definitions is C09. Outside: per-call outputs >= 32 KiB at the production window size (the len >= wsize branch is covered at W = 4/8: the code is parametric in the window length).')
 claim("C10",
       "Bounded 2-safety by self-composition: the copy primitives give identical results at chunk width 8 and 32 and never depend on bytes "
       "beyond `filled`; Window::extend depends only on the slices; deflate reset: no stale scalar survives from an arbitrary previous state "
@@ -114,11 +98,8 @@ claim("C13",
       "Outside: dictionary-assisted round trips (matches into the dictionary), deflateSetDictionary's hash insertion over >= 512 positions, "
       "dictionaries >= window size on the deflate side.")
 claim("C14",
-      "Bounded: reset == fresh for deflate (every scalar field, head[] cleared, pending discarded, trees re-initialised) and inflate "
-      "(reset_with_config from an arbitrary state vs a freshly constructed state, for every i32 windowBits); failed copies leave the "
-      "destination without a state (no aliasing of the source).",
-      "Outside: the success path of deflateCopy/inflateCopy (State is written into a u8 allocation: not encodable, DESIGN.md §1) and "
-      "therefore 'copied streams behave identically and independently' is NOT decided.")
+      'Bounded: reset == fresh for deflate (every scalar field, head[] cleared incl. a symbolic dirty entry, pending discarded, trees re-initialised, block_open) and inflate (reset_with_config from an arbitrary state vs a freshly constructed state, for every i32 windowBits); a new gzip member after an abandoned one starts its header fields from their first byte; a string field of the gzip header is captured from offset 0 whatever length an earlier use left behind; failed copies leave the destination without a state; the copy kernels (Pending::clone_to, SymBuf::clone_to, inflate Window::clone_to) reproduce contents and cursors.',
+      "Outside: the success path of deflateCopy/inflateCopy as a whole (State is written into a u8 allocation: not encodable, DESIGN.md §1): 'copied streams behave identically and independently' is decided only kernel by kernel.")
 claim("C15",
       "Bounded: inflate(): next/avail/total deltas equal bytes moved for every (avail_in, avail_out, flush) around a stored block, no "
       "underflow, BufError exactly when nothing moved or Finish could not complete; deflate level 0: cursor/total deltas exact incl. the "
@@ -134,24 +115,14 @@ claim("C16",
       "The oracle is my transcription of the rules (trusted base). Outside: data-movement equality with zlib-ng, multi-call programs, the "
       "libz-rs-sys NULL-pointer wrappers (thin, exercised by the pinned null.rs tests).")
 claim("C18",
-      "Bounded: the allocator shim for every misalignment of the user block (k < 64), size and alignment: pointer aligned and inside the "
-      "block, stash word below it, exactly one zfree with the original pointer and the same opaque; oversized requests refused before "
-      "zalloc; failed deflateCopy: MemError, one zalloc, no zfree, destination left without state.",
-      "Outside: balanced alloc/free over successful histories (init/copy success paths are not encodable), the gz layer.")
+      "Bounded: the allocator shim for every misalignment of the user block (k < 64), size and alignment: pointer aligned and inside the block, stash word below it, exactly one zfree with the original pointer and the same opaque; oversized requests refused before zalloc; failed deflateCopy: MemError, one zalloc, no zfree, destination left without state; deflate::end / inflate::end on a typed state in every status release every block exactly once through the caller's zfree (counting allocator passed through opaque).",
+      'Outside: balanced alloc/free over successful init/copy histories (those success paths are not encodable), the gz layer.')
 claim("C19",
-      "Bounded: inflateBack on a typed stream with a 256-byte window, concrete 8-byte prefix (final fixed block, six literals, length-3 "
-      "code) + 2 symbolic bytes = every distance code and extra bits: no access outside the window (typed local object), documented status, "
-      "too-far distances rejected with the literals still delivered, in-window matches produce the LZ77 bytes inflate would; plus the "
-      "inflateBack copy primitive (copy_match_back) for every (filled, offset, length).",
-      "Outside: dynamic blocks, stored blocks, inflate_fast_back (>= 15 input bytes), window sizes other than 256, callback slicing into "
-      "more than one slice, output-callback abort.")
+      'Bounded: inflateBack on a typed stream with a 256-byte window, concrete prefix (final fixed block, 1 or 9 literals, length-3 code, one concrete distance code per harness, all 32) + symbolic extra bits: no access outside the window (typed local object), documented status, too-far distances rejected with the literals still delivered, in-window matches produce the LZ77 bytes inflate would; after the window has wrapped (reduced instance: 16-byte window, back() takes every size from window.buffer_size()) every distance <= window is accepted and copies from the ring, larger ones are rejected; plus copy_match_back for every (filled, offset, length).',
+      'Outside: dynamic blocks, inflate_fast_back (>= 15 input bytes), callback slicing into more than one slice, output-callback abort, production window sizes for the wrapped case.')
 claim("C20",
-      "Bounded: read side: every gzip header mode with capture buffers: text/time/xflags/os/extra_len/hcrc equal the stream's fields, "
-      "extra/name/comment copied exactly up to the announced capacity (0..=4 inside canaried 8-byte buffers, or NULL) at the right "
-      "offsets across calls, absent fields reported absent, done == 1 only when the whole header was parsed (incl. header CRC verdict). "
-      "Write side: deflateSetHeader only for gzip streams.",
-      "Outside: the write side's field emission under tiny output chunks (KD7 gzip harness not built yet) and fields longer than the bounds "
-      "(length-uniform loops/memcpys).")
+      "Bounded: read side: every gzip header mode with capture buffers: text/time/xflags/os/extra_len/hcrc equal the stream's fields, extra/name/comment copied exactly up to the announced capacity (0..=4 inside canaried 8-byte buffers, or NULL) at the right offsets across calls and from offset 0 at field entry, absent fields reported absent, done == 1 only when the whole header was parsed (incl. header CRC verdict). Write side: deflateSetHeader only for gzip streams; the fixed 10 header bytes + trailer for a header without fields; flush_bytes (the field writer) for every field length/progress/pending room; extra, name and comment resumed after a full pending buffer continue from the byte where they stopped; a new member starts its fields from their first byte.",
+      'Outside: write-side headers with several fields in one harness (out of memory), fields longer than the bounds (length-uniform loops/memcpys).')
 claim("C09",
-      "Bounded, scalar implementations only: see evidence for the kernels that terminated.",
-      "Outside: AVX2/AVX-512 Adler, PCLMULQDQ/VPCLMULQDQ folding (no model of the intrinsics in Kani).")
+      "Bounded, scalar implementations only: CRC-32 byte and word tables and the braid table equal the bitwise definition for all indices; one naive step; crc32_braid's composition (inversions, prefix/words/suffix) on 0..=4 symbolic bytes; crc32_combine against the bitwise definition for |B| in 0..=2 (thorough 3, 4) with symbolic crc(A) and B; x^n mod p identity cases; Adler-32 closed form == RFC recurrence, adler32 on 0..=3 bytes (thorough: more) and the piecewise fold-copy; Engine B (MIR -> SMT, z3 + cvc5): adler32_combine never panics, returns both halves < 65521 and its low half equals the definition, for every (adler1, adler2, len2).",
+      "Outside: AVX2/AVX-512/NEON Adler, PCLMULQDQ/VPCLMULQDQ folding (no model of the intrinsics in Kani); the braid word step and adler32_combine's high half == definition did not terminate in any solver and are not claimed; lengths beyond the bounds.")
